@@ -61,6 +61,9 @@ type deepHasher struct {
 	h    interface{ Write([]byte) (int, error) }
 	seen map[uintptr]bool
 	buf  [8]byte
+	// spare: a slice contributes its SPARE CAPACITY too (the elements between len and cap): argument snapshots, so that a
+	// callee that appends to / writes behind a window of a larger buffer is seen
+	spare bool
 }
 
 func (d *deepHasher) u64(x uint64) {
@@ -102,6 +105,11 @@ func (d *deepHasher) walk(v reflect.Value) {
 		}
 		n := v.Len()
 		d.u64(uint64(n))
+		if d.spare && v.Cap() > n {
+			d.u64(uint64(v.Cap()))
+			n = v.Cap()
+			v = v.Slice(0, n)
+		}
 		if n > 0 && c18Plain(v.Type().Elem()) {
 			d.h.Write(unsafe.Slice((*byte)(v.UnsafePointer()), n*int(v.Type().Elem().Size())))
 			return
@@ -197,6 +205,14 @@ func deepHashValue(v reflect.Value) string {
 // deepHash digests the value (pass a pointer to hash the pointee and everything below it)
 func deepHash(x any) string { return deepHashValue(reflect.ValueOf(x)) }
 
+// deepHashArg: the snapshot of an ARGUMENT object: as deepHash, plus the spare capacity of every slice below it
+func deepHashArg(x any) string {
+	h := sha256.New()
+	d := &deepHasher{h: h, seen: map[uintptr]bool{}, spare: true}
+	d.walk(reflect.ValueOf(x))
+	return hex.EncodeToString(h.Sum(nil)[:12])
+}
+
 // ---------------------------------------------------------------------------------------------------------------------
 
 type c18Arg struct {
@@ -213,6 +229,122 @@ type c18Sess struct {
 	concCall func() string
 	// concFirst: run the concurrent phase before any solo call (lazily initialised globals: the first use is the racy one)
 	concFirst bool
+	// watch, when set, is run in a loop by an OBSERVER goroutine while the concurrent callers run: it returns the name of a
+	// shared argument that it sees in a state different from its snapshot ("" otherwise). A callee that modifies an
+	// argument for the duration of the call and restores it on return is invisible to the before/after snapshots.
+	watch func() string
+	// RESULTS HANDED OUT EARLIER: while keepOn is set, the result objects that a call renders with out() and the
+	// verifications it makes with again() are retained; keptChanged() re-hashes / re-runs them after the later calls on
+	// the same receiver / state objects (same and other arguments).
+	keepOn bool
+	keptMu sync.Mutex
+	kept   []c18Kept
+}
+
+type c18Kept struct {
+	ptr any           // result object (pointer), h = its deep hash when it was handed out
+	f   func() string // or a verification of a result, h = its outcome at that time
+	h   string
+}
+
+const c18KeptMax = 512
+
+// out renders a RESULT object of the entry point (pass a pointer) and retains it
+func (s *c18Sess) out(ptr any) string {
+	h := deepHash(ptr)
+	if s.keepOn {
+		s.keptMu.Lock()
+		if len(s.kept) < c18KeptMax {
+			s.kept = append(s.kept, c18Kept{ptr: ptr, h: h})
+		}
+		s.keptMu.Unlock()
+	}
+	return h
+}
+
+// again runs a verification of a result now and retains it, to be repeated after the later calls
+func (s *c18Sess) again(f func() string) string {
+	h := f()
+	if s.keepOn {
+		s.keptMu.Lock()
+		if len(s.kept) < c18KeptMax {
+			s.kept = append(s.kept, c18Kept{f: f, h: h})
+		}
+		s.keptMu.Unlock()
+	}
+	return h
+}
+
+// keptChanged: some result handed out earlier no longer has the value it had / no longer verifies as it did
+func (s *c18Sess) keptChanged() bool {
+	s.keptMu.Lock()
+	kept := s.kept
+	s.keptMu.Unlock()
+	bad := false
+	for _, k := range kept {
+		if k.f != nil {
+			bad = bad || c18SafeCall(k.f) != k.h
+		} else {
+			bad = bad || deepHash(k.ptr) != k.h
+		}
+	}
+	return bad
+}
+
+// ---- slice arguments that are WINDOWS of a larger buffer ---------------------------------------------------------------
+// A maker passes a slice argument through c18Win: when the line asks for windows (bits 4-5 of the seed not both zero) the
+// slice is re-allocated in the middle of a larger buffer (1..3 sentinel elements before it, 1..5 after it: spare capacity
+// behind the window); the buffer becomes an argument object of the session, so the elements OUTSIDE the window are part
+// of the snapshots.
+type c18Ctx struct {
+	win  bool
+	bufs []c18Arg
+}
+
+var c18Ctxs sync.Map // *rng -> *c18Ctx (the makers only receive the generator)
+
+func c18Build(mk c18Maker, seed uint64, shape int, win bool) *c18Sess {
+	r := newRng(seed)
+	ctx := &c18Ctx{win: win}
+	c18Ctxs.Store(r, ctx)
+	defer c18Ctxs.Delete(r)
+	s := mk(r, shape)
+	s.args = append(s.args, ctx.bufs...)
+	return s
+}
+
+func c18WinOf(seed uint64) bool { return (seed>>4)&3 != 0 }
+
+func c18Win[T any](r *rng, s []T) []T {
+	v, ok := c18Ctxs.Load(r)
+	if !ok || !v.(*c18Ctx).win || s == nil {
+		return s
+	}
+	ctx := v.(*c18Ctx)
+	pre, post := 1+r.intn(3), 1+r.intn(5)
+	buf := make([]T, pre+len(s)+post)
+	var zero T
+	if c18Plain(reflect.TypeOf(zero)) { // sentinels: arbitrary non-zero memory
+		raw := unsafe.Slice((*byte)(unsafe.Pointer(&buf[0])), len(buf)*int(unsafe.Sizeof(zero)))
+		for i := range raw {
+			raw[i] = byte(r.u64()) | 1
+		}
+	} else if len(s) > 0 { // sentinels: valid values (copies of elements of the slice)
+		for i := range buf {
+			buf[i] = s[(i*7+3)%len(s)]
+		}
+	}
+	copy(buf[pre:], s)
+	ctx.bufs = append(ctx.bufs, c18Arg{fmt.Sprintf("buffer#%d", len(ctx.bufs)), &buf})
+	return buf[pre : pre+len(s)]
+}
+
+// c18Win2: every row of a slice of slices, and the slice of rows itself
+func c18Win2[T any](r *rng, s [][]T) [][]T {
+	for i := range s {
+		s[i] = c18Win(r, s[i])
+	}
+	return c18Win(r, s)
 }
 
 type c18Maker func(r *rng, shape int) *c18Sess
@@ -251,7 +383,7 @@ var c18Entries = []string{"pairfixedq", "millerloopfixedq", "pairingcheckfixedq"
 	"kzgopen", "kzgcommit", "kzgbatchopen", "multiexp", "fft", "mimc", "poseidon2", "sis", "batchscalarmul", "batchjactoaff", "iop",
 	"vector", "codec", "edwards", "polypool", "mdhasher",
 	"plookupvec", "plookuptab", "permutation", "fri", "shplonk", "fflonk", "pedersen", "iopratio", "kzglagrange", "polynomial",
-	"vortex", "merkle"}
+	"vortex", "merkle", "scalarexp", "hashto"}
 
 // entry points with a goroutine / parallel.Execute implementation above some size (`C18 par` lines), same list as
 // GV.ForkJoin.parEntries
@@ -267,8 +399,12 @@ func c18ParSupported(entry, curve string) bool {
 	}
 	return false
 }
+
 var c18Curves = []string{"bn254", "bls12-377", "bls12-381", "bls24-315", "bls24-317", "bw6-633", "bw6-761"}
 var c18SmallFields = []string{"koalabear", "babybear", "goldilocks"}
+
+// packages outside the pairing-curve template that have `scalarexp` / `hashto` entry points
+var c18OtherPackages = []string{"secp256k1", "grumpkin", "stark-curve", "bandersnatch"}
 
 // same table as GV.ForkJoin.supported
 func c18Supported(entry, curve string) bool {
@@ -287,6 +423,10 @@ func c18Supported(entry, curve string) bool {
 		return false
 	}
 	switch entry {
+	case "scalarexp": // every package with an exponentiation / scalar multiplication taking a *big.Int
+		return isCurve || isField || curve == "secp256k1" || curve == "grumpkin" || curve == "stark-curve" || curve == "bandersnatch"
+	case "hashto": // every package with hash-to-field / hash-to-curve
+		return isCurve || isField || curve == "secp256k1" || curve == "grumpkin" || curve == "stark-curve"
 	case "sis":
 		return curve == "bls12-377" || isField
 	case "poseidon2", "fft":
@@ -301,7 +441,7 @@ func c18Supported(entry, curve string) bool {
 func (s *c18Sess) snap() []string {
 	out := make([]string, len(s.args))
 	for i, a := range s.args {
-		out[i] = deepHash(a.ptr)
+		out[i] = deepHashArg(a.ptr)
 	}
 	return out
 }
@@ -376,12 +516,12 @@ func execC18(a []string) string {
 	if mk0 == nil {
 		return "err:unimplemented"
 	}
-	mk := func(r *rng) *c18Sess { return mk0(r, int(seed&0xf)) }
+	mk := func(sd uint64) *c18Sess { return c18Build(mk0, sd, int(seed&0xf), c18WinOf(seed)) }
 	old := runtime.GOMAXPROCS(int(p))
 	defer runtime.GOMAXPROCS(old)
 
 	pure, same, conc := true, true, true
-	tag := ""
+	tag, resTag := "", false
 	note := func(name string) {
 		if name != "" {
 			pure = false
@@ -397,15 +537,17 @@ func execC18(a []string) string {
 		if g == 0 {
 			return
 		}
-		cs := mk(newRng(seed))
+		cs := mk(seed)
 		before := cs.snap()
 		f := cs.call
 		if cs.concCall != nil {
 			f = cs.concCall
 		}
+		cs.keepOn = true
 		res := make([]string, 2*g)
 		start := make(chan struct{})
 		var wg sync.WaitGroup
+		stopWatch := c18Watch(cs, note)
 		for i := 0; i < int(g); i++ {
 			wg.Add(1)
 			go func(i int) {
@@ -422,25 +564,39 @@ func execC18(a []string) string {
 		}
 		close(start)
 		wg.Wait()
+		stopWatch()
 		note(cs.changed(before))
+		cs.keepOn = false
+		if cs.keptChanged() { // a result handed to one caller was rewritten by a call of another caller
+			res = append(res, "result-changed")
+			resTag = true
+		}
 		concRes = res
 	}
 
-	sess := mk(newRng(seed))
+	sess := mk(seed)
 	if sess.concFirst {
 		concPhase()
 	}
-	oth := mk(newRng(seed ^ 0x5851f42d4c957f2d))
+	oth := mk(seed ^ 0x5851f42d4c957f2d)
 	before := sess.snap()
+	sess.keepOn = true // the results of the first two calls are retained
 	r0 := c18SafeCall(sess.call)
 	note(sess.changed(before))
 	for i := uint64(1); i < k; i++ {
 		c18SafeCall(oth.call) // an unrelated call in between (other objects, same process-wide pools and tables)
 		ri := c18SafeCall(sess.call)
+		sess.keepOn = false
 		if ri != r0 {
 			same = false
 		}
 		note(sess.changed(before))
+	}
+	sess.keepOn = false
+	c18SafeCall(oth.call)
+	if sess.keptChanged() { // results handed out by the earlier calls must not change because of the later ones
+		same = false
+		resTag = true
 	}
 	if r0 == "panic" {
 		return "panic"
@@ -460,7 +616,39 @@ func execC18(a []string) string {
 	if tag != "" {
 		out += " arg=" + tag
 	}
+	if resTag {
+		out += " res=changed"
+	}
 	return out
+}
+
+// c18Watch starts the observer goroutine of a session (see c18Sess.watch); the returned function stops it and reports
+func c18Watch(s *c18Sess, note func(string)) (stop func()) {
+	if s.watch == nil {
+		return func() {}
+	}
+	var done atomic.Bool
+	var seen atomic.Value
+	var wg sync.WaitGroup
+	wg.Add(1)
+	go func() {
+		defer wg.Done()
+		for n := 0; !done.Load(); n++ {
+			if name := c18SafeCall(s.watch); name != "" && name != "panic" {
+				seen.CompareAndSwap(nil, name)
+			}
+			if n&7 == 7 {
+				runtime.Gosched()
+			}
+		}
+	}()
+	return func() {
+		done.Store(true)
+		wg.Wait()
+		if name, ok := seen.Load().(string); ok {
+			note(name)
+		}
+	}
 }
 
 func execC18Par(a []string) string {
@@ -478,19 +666,21 @@ func execC18Par(a []string) string {
 	}
 	old := runtime.GOMAXPROCS(1)
 	defer runtime.GOMAXPROCS(old)
-	sess := mk(newRng(seed), 16+int(seed&0xf))
+	sess := c18Build(mk, seed, 16+int(seed&0xf), c18WinOf(seed))
 	pure, same, conc := true, true, true
-	tag := ""
+	tag, resTag := "", false
 	before := sess.snap()
-	check := func() {
-		if name := sess.changed(before); name != "" {
+	note := func(name string) {
+		if name != "" {
 			pure = false
 			if tag == "" {
 				tag = name
 			}
 		}
 	}
+	check := func() { note(sess.changed(before)) }
 	// the sequential reference: with one P the workers of a fork-join run one after the other
+	sess.keepOn = true // the results of the reference call and of the first solo call are retained
 	ref := c18SafeCall(sess.call)
 	check()
 	if ref == "panic" {
@@ -507,11 +697,15 @@ func execC18Par(a []string) string {
 			same = false
 			bad++
 		}
+		sess.keepOn = false
 		if i == 0 {
 			check()
 		}
 	}
 	check()
+	if sess.keptChanged() {
+		same, resTag = false, true
+	}
 	if g > 0 {
 		f := sess.call
 		if sess.concCall != nil {
@@ -520,6 +714,8 @@ func execC18Par(a []string) string {
 		res := make([]string, 2*g)
 		start := make(chan struct{})
 		var wg sync.WaitGroup
+		stopWatch := c18Watch(sess, note)
+		sess.keepOn = true
 		for i := 0; i < int(g); i++ {
 			wg.Add(1)
 			go func(i int) {
@@ -536,12 +732,17 @@ func execC18Par(a []string) string {
 		}
 		close(start)
 		wg.Wait()
+		stopWatch()
+		sess.keepOn = false
 		check()
 		for _, r := range res {
 			if r != ref {
 				conc = false
 				bad++
 			}
+		}
+		if sess.keptChanged() {
+			conc, resTag = false, true
 		}
 	}
 	if detail {
@@ -550,6 +751,9 @@ func execC18Par(a []string) string {
 	out := "pure=" + boolStr(pure) + " same=" + boolStr(same) + " conc=" + boolStr(conc)
 	if tag != "" {
 		out += " arg=" + tag
+	}
+	if resTag {
+		out += " res=changed"
 	}
 	return out
 }
@@ -777,7 +981,7 @@ func genC18(g *gen) {
 	}
 
 	// entry points: every family at its two minimal shapes, a large one, the family specific ones and random ones
-	all := append(append([]string{}, c18Curves...), c18SmallFields...)
+	all := append(append(append([]string{}, c18Curves...), c18SmallFields...), c18OtherPackages...)
 	reps := g.budget(1, 6)
 	for _, entry := range c18Entries {
 		for _, curve := range all {
@@ -807,6 +1011,11 @@ func genC18(g *gen) {
 			for rep := 0; rep < reps; rep++ {
 				shapes = append(shapes, 5+g.rng.intn(11))
 			}
+			if entry == "scalarexp" { // cheap calls: more random scalars (sign, length) per package
+				for rep := 0; rep < 2; rep++ {
+					shapes = append(shapes, 3+g.rng.intn(13))
+				}
+			}
 			for si, shape := range shapes {
 				procs := []int{c18Procs[g.rng.intn(len(c18Procs))]}
 				if g.thorough() && si == len(shapes)-1 {
@@ -820,6 +1029,12 @@ func genC18(g *gen) {
 					}
 					if c18Provers[entry] && !g.thorough() { // (each call is a whole proof: several multi-exponentiations)
 						k, gor = 2, 2+g.rng.intn(2)
+					}
+					if entry == "scalarexp" { // ONE scalar object shared by >= 4 goroutines running in parallel + the observer
+						gor = 4 + g.rng.intn(g.budget(5, 13))
+						if p < 2 {
+							p = 8
+						}
 					}
 					if entry == "fft" && shape >= 2 && shape <= 4 { // ONE large domain shared by >= 8 goroutines
 						gor = 8 + g.rng.intn(g.budget(5, 25))
@@ -872,7 +1087,7 @@ func genC18(g *gen) {
 	// lazily initialised globals: concurrent FIRST use in fresh processes
 	children := g.budget(5, 34)
 	for _, global := range c18FreshGlobals {
-		for _, pkg := range append(append([]string{}, all...), "grumpkin", "bandersnatch") {
+		for _, pkg := range all {
 			if !c18FreshSupported(global, pkg) || c18FreshLookup(global, pkg) == nil {
 				continue
 			}
@@ -895,7 +1110,9 @@ func genC18(g *gen) {
 		"C18 par merkle koalabear 4 2 41 1", "C18 par merkle koalabear 4 2 2 xyz", "C18 par pair bn254 4 2 2 1",
 		"C18 par mimc bn254 4 2 2 1", "C18 par nosuch bn254 4 2 2 1", "C18 par fft nosuch 4 2 2 1", "C18 par par bn254 4 2 2 1",
 		"C18 par vortex babybear 4 2 2 1", "C18 par sis bn254 4 2 2 1", "C18 par fft koalabear 4 2 2 1 1",
-		"C18 merkle bn254 2 2 2 1", "C18 vortex goldilocks 2 2 2 1", "C18 fft nosuch 2 2 2 1", "C18 plookupvec koalabear 2 2 2 1"} {
+		"C18 merkle bn254 2 2 2 1", "C18 vortex goldilocks 2 2 2 1", "C18 fft nosuch 2 2 2 1", "C18 plookupvec koalabear 2 2 2 1",
+		"C18 hashto bandersnatch 2 2 2 1", "C18 scalarexp nosuch 2 2 2 1", "C18 par scalarexp bn254 4 2 2 1", "C18 par hashto koalabear 4 2 2 1",
+		"C18 pair secp256k1 2 2 2 1", "C18 scalarexp bn254 2 2 2", "C18 hashto stark-curve 9 2 2 1"} {
 		g.emit("%s", l)
 	}
 }
